@@ -57,6 +57,11 @@ CHECKS = {
    text="A scene is described by my own forest and geometry arrays; the reference is the explicit list of (node, geometry, world matrix) placements. For every scene of the family (chain / instanced templates x edge transforms incl. uniform scale, mixed kinds, empty frame, unreferenced geometry) every history of <=2 actions (copy, uniform / per-axis scaled, rezero, apply_transform, convert_units, + , append_scenes of 3, subscene, edge update, shared-geometry edits, add / delete geometry) is executed with and without reading every quantity first, and bounds, extents, centroid, area, volume, triangles, dump, to_mesh and convex hull are compared with the placement list; actions returning a new scene must leave the source unchanged.",
    note="Second actions after name-changing first actions are restricted to placement-level actions (the model does not track library-generated names). Similarity node transforms only.",
    design="3.C10"),
+ "C11": dict(level="exploration", engine="E2",
+   technique="bounded-exhaustive enumeration of lattice meshes x direction set x every combinatorially distinct plane offset, exact Fraction side classification and triangle-clipping oracle",
+   text="The slicing code is a per-triangle case analysis on the sign pattern of three vertices; for each of 8 lattice meshes (convex, non-convex, genus 1, two bodies, open, a plate with a non-convex through pocket) and 15 directions every offset through a vertex height and strictly between consecutive vertex heights is enumerated, which realises every sign pattern in every vertex rotation. Sections are compared with exact clipping (on plane, on surface, complete, closed loops, attributed face), multiplane sections with non-unit normals, slices with side / on-surface / area additivity, caps with volume additivity, exact cross-section area and watertightness of convex halves for all three triangulation engines.",
+   note="Coverage / closed-loop clauses only where the statement demands them (no mesh edge in the plane / general position). Known finding: capped halves of a non-convex solid when the plane passes through vertices.",
+   design="3.C11"),
 }
 
 NA = {}
